@@ -328,6 +328,7 @@ Qed.
 
 Definition carry_Q (r : rt) (fuel : N) (r' : rt) : Prop :=
   Inv R ES r' /\ rt_abs r' = rt_abs r /\ hB (main r') = hB (main r) /\
+  hel (main r) ⊆ hel (main r') /\
   hgl (main r') <= hgl (main r) /\
   match lo r with
   | Some o =>
@@ -357,12 +358,12 @@ Proof.
       assert (Hnil : orem o = []) by (apply ocnt_0; assumption).
       split; [split; [exact HR|split; [exact Hok|exact I]]|].
       split. { destruct (s_rt s) as [t lo0]. cbn in *. subst lo0. destruct o as [B l i n]. cbn in Hnil. subst l. reflexivity. }
-      repeat split; try lia.
+      split; [reflexivity|]. split; [reflexivity|]. repeat split; try lia.
     + apply wp_ret. unfold carry_Q. rewrite Hlo.
       split. { split; [exact HR|]. split; [exact Hok|]. rewrite Hlo. apply old_pre_ok; [exact Hpre|].
                unfold budget in Hbud. cbn [N.of_nat] in Hbud.
                destruct (N.ltb_spec 0 (ocnt o)); [|lia]. rewrite N.sub_0_r in Hbud. lia. }
-      repeat split; try lia.
+      split; [reflexivity|]. split; [reflexivity|]. split; [reflexivity|]. repeat split; try lia.
   - cbn [carry_loop]. destruct (s_rt s) as [t lo0] eqn:Ert. cbn [lo main] in *. subst lo0.
     destruct o as [B l i n]. destruct Hpre as (Hit & Hc & Hnd & Hdis). cbn [oit orem ocnt] in *.
     apply wp_bind. unfold old_pop. wp_steps. rewrite Ert. cbn [lo oit orem oB ocnt].
@@ -372,7 +373,7 @@ Proof.
       assert (Hnil : l = []) by (destruct l; [reflexivity|cbn [length] in Hc; lia]). subst l.
       unfold carry_Q. rewrite Hs'. cbn [main lo ocnt].
       split; [split; [exact HR|split; [exact Hok|exact I]]|].
-      split; [reflexivity|]. repeat split; try lia.
+      split; [reflexivity|]. split; [reflexivity|]. split; [reflexivity|]. repeat split; try lia.
     + destruct l as [|e l]; [cbn [length] in Hc; lia|].
       wp_steps. cbn [set_rt s_rt]. rewrite Ert. cbn [main].
       set (s1 := set_rt (RT t (Some (Old B l (i - 1) (n - 1)))) s).
@@ -406,12 +407,13 @@ Proof.
            replace (n - 1 + 1 - N.of_nat (S fuel)) with (n - 1 - N.of_nat fuel) in Hbud by lia.
            lia.
         -- intros [] s6 HQ. unfold carry_Q in *. cbn [s5 set_rt s_rt main lo ocnt oB] in HQ.
-           destruct HQ as (HI & Habs & HB6 & Hgl6 & Hgl6' & Hlen6 & Hlo6).
+           destruct HQ as (HI & Habs & HB6 & Hsub6 & Hgl6 & Hgl6' & Hlen6 & Hlo6).
            split; [exact HI|]. split.
            { rewrite Habs. destruct t' as [B' g' n' m']. cbn in Hel', HB'. subst m' B'.
              apply abs_pop. exact He. }
            cbn [main lo ocnt oB].
-           split; [congruence|]. split; [lia|]. split; [lia|]. split; [lia|].
+           split; [congruence|]. split; [etransitivity; [|exact Hsub6]; rewrite Hel'; apply insert_subseteq; exact He|].
+           split; [lia|]. split; [lia|]. split; [lia|].
            destruct (lo (s_rt s6)) as [o6|]; [|lia].
            destruct Hlo6 as (H1 & H2 & H3). repeat split; lia.
         -- intros p s6 (HI & -> & Hsub). split; [exact HI|]. split; [reflexivity|].
@@ -521,6 +523,7 @@ Proof. intros H. unfold rt_abs. cbn [main lo]. rewrite H. symmetry. apply insert
 (* what an inserting call without growth does: the new element, at most R moves *)
 Definition ins_post (r : rt) (e : elem) (r' : rt) : Prop :=
   Inv R ES r' /\ rt_abs r' = <[ek e := e]> (rt_abs r) /\
+  hel (main r') !! ek e = Some e /\   (* the new element is in the main table: its bucket stays valid *)
   hB (main r') = hB (main r) /\ rt_capacity r <= rt_capacity r' /\
   match lo r with
   | None => lo r' = None /\ hn (main r') = hn (main r) + 1
@@ -563,8 +566,9 @@ Proof.
       * unfold budget. rewrite Hz, N.min_0_r. destruct (N.ltb_spec R 0); lia.
       * apply budget_of_need; [exact HR| |lia]. lia.
     + intros [] s3 HQ. unfold carry_Q in HQ. cbn [s2 set_rt s_rt main lo] in HQ.
-      destruct HQ as (HI3 & Habs3 & HB3 & Hgl3 & Hgl3' & Hn3 & Hlo3).
+      destruct HQ as (HI3 & Habs3 & HB3 & Hsub3 & Hgl3 & Hgl3' & Hn3 & Hlo3).
       unfold ins_post. cbn [main lo]. split; [exact HI3|]. split; [rewrite Habs3; apply abs_insert_main; exact Hel'|].
+      split. { eapply lookup_weaken; [|exact Hsub3]. cbn [s2 set_rt s_rt main]. rewrite Hel'. apply lookup_insert. }
       split; [congruence|]. split; [unfold rt_capacity, hlen; cbn [main]; lia|].
       split; [lia|]. destruct (lo (s_rt s3)) as [o3|].
       * destruct Hlo3 as (H1 & H2 & H3). rewrite N.min_l in H1 by lia. repeat split; [lia|exact H2|exact H3].
@@ -574,12 +578,14 @@ Proof.
   - wp_steps. unfold ins_post. cbn [set_rt s_rt main lo].
     split; [split; [exact HR|split; [exact Hok'|exact I]]|].
     split; [apply abs_insert_main; exact Hel'|].
+    split; [rewrite Hel'; apply lookup_insert|].
     split; [exact HB'|]. split; [unfold rt_capacity, hlen; cbn [main]; lia|]. split; [reflexivity|exact Hn'].
 Qed.
 
 (* an inserting call in general: with growth first when the main table is full *)
 Definition insert_post (r : rt) (e : elem) (r' : rt) : Prop :=
   Inv R ES r' /\ rt_abs r' = <[ek e := e]> (rt_abs r) /\
+  hel (main r') !! ek e = Some e /\
   (0 < hgl (main r) -> ins_post r e r') /\
   (hgl (main r) = 0 -> lo r = None /\
      (* the new table holds the new element and up to R moved ones; the rest waits in the old *)
@@ -605,8 +611,8 @@ Proof.
       assert (Hgl1' : 0 < hgl (main (s_rt s1))) by lia.
       destruct (N.eqb_spec (hgl (main (s_rt s1))) 0) as [Hz1|Hz1]; [lia|].
       eapply wp_conseq; [apply rt_insert_no_grow_spec; [exact HI1|rewrite Habs1; exact Habs|exact Hgl1']| |].
-      * intros [] s2 (HI2 & Habs2 & HB2 & Hcap2 & Hlo2). unfold insert_post.
-        split; [exact HI2|]. split; [rewrite Habs2, Habs1; reflexivity|].
+      * intros [] s2 (HI2 & Habs2 & Hin2 & HB2 & Hcap2 & Hlo2). unfold insert_post.
+        split; [exact HI2|]. split; [rewrite Habs2, Habs1; reflexivity|]. split; [exact Hin2|].
         split; [intros; lia|]. intros _. split; [exact Hlo|].
         destruct (N.eq_dec (hn (main (s_rt s))) 0) as [Hn0|Hn0].
         -- rewrite (Hlo0 Hn0) in Hlo2. destruct Hlo2 as [-> Hn2]. lia.
@@ -620,8 +626,8 @@ Proof.
       split; [rewrite Hs2, Hs1; exact HI|]. split; [right; split; [reflexivity|rewrite Hs2, Hs1; reflexivity]|].
       rewrite Hs2, Hs1. apply insert_subseteq. exact Habs.
   - eapply wp_conseq; [apply rt_insert_no_grow_spec; [exact HI|exact Habs|lia]| |].
-    + intros [] s1 Hp. unfold insert_post. pose proof Hp as (H1 & H2 & H3).
-      split; [exact H1|]. split; [exact H2|]. split; [intros _; exact Hp|intros; lia].
+    + intros [] s1 Hp. unfold insert_post. pose proof Hp as (H1 & H2 & H3 & _).
+      split; [exact H1|]. split; [exact H2|]. split; [exact H3|]. split; [intros _; exact Hp|intros; lia].
     + intros p s1 [H _]. exact H.
 Qed.
 
@@ -808,15 +814,16 @@ Qed.
 (* clear() *)
 Lemma hb_clear_spec t (Q : hb -> st -> Prop) (U : panic -> st -> Prop) s :
   hb_ok ES t ->
-  (forall t' s', s_rt s' = s_rt s -> hb_ok ES t' -> hel t' = ∅ -> hn t' = 0 -> hB t' = hB t -> hgl t <= hgl t' -> Q t' s') ->
+  (forall t' s', s_rt s' = s_rt s -> hb_ok ES t' -> hel t' = ∅ -> hn t' = 0 -> hB t' = hB t -> hgl t <= hgl t' ->
+                 (t' = t \/ hgl t' = bcap (hB t)) -> Q t' s') ->
   wp (hb_clear t) Q U s.
 Proof.
   intros Hok HQ. pose proof Hok as (Hcap & Hn & Hkey & HBb). unfold hb_clear, hlen.
   destruct (N.eqb_spec (hn t) 0) as [Hz|Hz].
-  - apply wp_ret. apply HQ; [reflexivity|exact Hok| |exact Hz|reflexivity|lia].
+  - apply wp_ret. apply HQ; [reflexivity|exact Hok| |exact Hz|reflexivity|lia|left; reflexivity].
     apply map_size_empty_inv. lia.
   - apply wp_bind. apply frame0_use; [apply frame0_drop_elems|]. intros [] s1 Hs1. apply wp_ret.
-    apply HQ; [exact Hs1|apply hb_ok_empty; tauto|reflexivity|reflexivity|reflexivity|]. cbn [hb_empty hgl]. lia.
+    apply HQ; [exact Hs1|apply hb_ok_empty; tauto|reflexivity|reflexivity|reflexivity| |right; reflexivity]. cbn [hb_empty hgl]. lia.
 Qed.
 
 Lemma rt_clear_spec (Q : unit -> st -> Prop) (U : panic -> st -> Prop) s :
@@ -827,7 +834,7 @@ Lemma rt_clear_spec (Q : unit -> st -> Prop) (U : panic -> st -> Prop) s :
 Proof.
   intros (HR & Hok & _) HQ. unfold rt_clear. apply wp_bind. apply free_old_spec. intros s1 Hs1.
   wp_steps. rewrite Hs1. cbn [main].
-  apply hb_clear_spec; [exact Hok|]. intros t' s2 Hs2 Hok' Hel' Hn' HB' Hgl'. wp_steps.
+  apply hb_clear_spec; [exact Hok|]. intros t' s2 Hs2 Hok' Hel' Hn' HB' Hgl' _. wp_steps.
   apply HQ; cbn [set_rt s_rt]; rewrite Hs2, Hs1; cbn [main lo].
   - split; [exact HR|split; [exact Hok'|exact I]].
   - unfold rt_abs. cbn [main lo]. rewrite Hel'. apply (left_id_L ∅ (∪)).
@@ -836,6 +843,125 @@ Proof.
 Qed.
 
 
+
+(* ---------------------------------------------------------------- replace_bucket_with *)
+
+(* the closure: it owns the element while it runs, does not touch the tables, and either gives
+   an element back for the same slot (same key) or keeps it *)
+Definition closure_ok (f : elem -> M' (option elem)) (e : elem) (res : option elem) : Prop :=
+  forall s, wp (f e) (fun r s' => s_rt s' = s_rt s /\ r = res) (fun p s' => s_rt s' = s_rt s /\ p = PUser) s.
+
+Definition replace_post (r : rt) (im : bool) (k : N) (res : option elem) (b : bool) (r' : rt) : Prop :=
+  Inv R ES r' /\ hB (main r') = hB (main r) /\
+  (forall k', k' <> k -> rt_find_pure r' k' = rt_find_pure r k') /\
+  match res with
+  | Some e' => b = true /\ rt_abs r' = <[k := e']> (rt_abs r) /\ rt_find_pure r' k = Some (im, e') /\
+               hn (main r') = hn (main r) /\ hgl (main r') = hgl (main r) /\
+               match lo r, lo r' with
+               | Some o, Some o' => ocnt o' = ocnt o /\ oit o' = oit o /\ oB o' = oB o
+               | None, None => True
+               | _, _ => False
+               end
+  | None => b = false /\ rt_abs r' = delete k (rt_abs r) /\ rt_find_pure r' k = None /\
+            (* an old table emptied this way stays allocated until the next inserting call *)
+            (im = false -> match lo r, lo r' with Some o, Some o' => ocnt o' + 1 = ocnt o | _, _ => False end)
+  end.
+
+Lemma rt_replace_bucket_with_spec im k e f res (Q : bool -> st -> Prop) (U : panic -> st -> Prop) s :
+  Inv R ES (s_rt s) -> rt_find_pure (s_rt s) k = Some (im, e) ->
+  closure_ok f e res -> (forall e', res = Some e' -> ek e' = k) ->
+  (forall b s', replace_post (s_rt s) im k res b (s_rt s') -> Q b s') ->
+  (* a panicking closure loses exactly the element it was handed; everything else is consistent *)
+  (forall s', Inv R ES (s_rt s') -> rt_abs (s_rt s') = delete k (rt_abs (s_rt s)) -> U PUser s') ->
+  wp (rt_replace_bucket_with c im k f) Q U s.
+Proof.
+  intros HI Hf Hcl Hres HQ HU. pose proof HI as (HR & Hok & Ho). unfold rt_replace_bucket_with. destruct im.
+  - apply rt_find_main in Hf. wp_steps. apply hb_remove_spec with (e := e); [exact Hok|exact Hf|].
+    intros t' s1 Hs1 Hok' Hel' HB' Hn' Hge Hle. wp_steps. cbn [fst snd].
+    destruct (s_rt s) as [t lo0] eqn:Ert. cbn [main lo] in *.
+    assert (Hno : forall x oo, lo0 = Some oo -> x ∈ orem oo -> ek x <> k).
+    { intros x oo -> Hx Hk. destruct Ho as (_ & _ & _ & Hdis & _). specialize (Hdis x Hx). congruence. }
+    assert (HI1 : Inv R ES (RT t' lo0)).
+    { split; [exact HR|]. split; [exact Hok'|]. cbn [lo main]. destruct lo0 as [o|]; [|exact I].
+      destruct Ho as (Hit & Hc & Hnd & Hdis & Hneed).
+      split; [exact Hit|]. split; [exact Hc|]. split; [exact Hnd|]. split; [|lia].
+      intros x Hx. rewrite Hel'. rewrite lookup_delete_ne by (apply not_eq_sym; eapply Hno; eauto). apply Hdis. exact Hx. }
+    set (s2 := set_rt (RT t' (lo (s_rt s1))) s1).
+    assert (Hs2 : s_rt s2 = RT t' lo0) by (unfold s2; cbn [set_rt s_rt]; rewrite Hs1; reflexivity).
+    eapply wp_conseq; [apply (Hcl s2)| |].
+    + intros r s3 [Hs3 ->]. destruct res as [e'|].
+      * wp_steps. apply HQ. cbn [set_rt s_rt]. rewrite Hs3, Hs2. cbn [lo]. specialize (Hres e' eq_refl).
+        pose proof Hok as (Hcap & Hn & Hkey & HBb).
+        unfold replace_post. cbn [main lo].
+        assert (Hid : <[k := e']> (delete k (hel t)) = <[k := e']> (hel t)) by apply insert_delete_insert.
+        split.
+        { split; [exact HR|]. split.
+          - split; [hl; lia|]. split; [hl; rewrite Hid, size_insert_Some with (e' := e) by exact Hf; exact Hn|].
+            split; [|exact HBb]. intros j x. hl. rewrite Hid. destruct (N.eq_dec j k) as [->|Hne].
+            + rewrite lookup_insert. intros [= <-]. exact Hres.
+            + rewrite lookup_insert_ne by congruence. apply Hkey.
+          - cbn [lo main]. destruct lo0 as [o|]; [|exact I]. destruct Ho as (Hit & Hc & Hnd & Hdis & Hneed).
+            split; [exact Hit|]. split; [exact Hc|]. split; [exact Hnd|]. split; [|exact Hneed].
+            intros x Hx. hl. rewrite Hid, lookup_insert_ne; [apply Hdis; exact Hx|]. apply not_eq_sym. eapply Hno; eauto. }
+        split; [reflexivity|].
+        split. { intros k' Hk'. unfold rt_find_pure. cbn [main lo hel]. rewrite Hid, lookup_insert_ne by congruence. reflexivity. }
+        split; [reflexivity|].
+        split. { unfold rt_abs. cbn [main lo hel]. rewrite Hid. symmetry. apply insert_union_l. }
+        split. { unfold rt_find_pure. cbn [main hel]. rewrite Hid, lookup_insert. reflexivity. }
+        split; [reflexivity|]. split; [reflexivity|]. destruct lo0; auto.
+      * wp_steps. apply HQ. rewrite Hs3, Hs2. unfold replace_post. cbn [main lo].
+        split; [exact HI1|]. split; [exact HB'|].
+        split. { intros k' Hk'. unfold rt_find_pure. cbn [main lo]. rewrite Hel', lookup_delete_ne by congruence. reflexivity. }
+        split; [reflexivity|]. split; [apply abs_delete_main; assumption|].
+        split; [|discriminate]. unfold rt_find_pure. cbn [main lo]. rewrite Hel', lookup_delete.
+        destruct lo0 as [o|]; [|reflexivity]. destruct (lookup_list k (orem o)) as [x|] eqn:El; [|reflexivity].
+        apply lookup_list_Some in El as [Hx Hk]. exfalso. eapply Hno; eauto.
+    + intros p s3 [Hs3 ->]. apply HU; rewrite Hs3, Hs2; [exact HI1|]. apply abs_delete_main; assumption.
+  - apply rt_find_old in Hf as (Hnone & o & Hlo & Hl). wp_steps. rewrite Hlo.
+    rewrite Hlo in Ho. destruct (old_ok_remove _ _ _ _ Ho Hl HR) as [Ho' Hpos].
+    pose proof Ho as (Hit & Hc & Hnd & Hdis & Hneed).
+    apply wp_bind. apply old_take_spec with (e := e) (o := o); [exact Hlo|exact Hit|exact Hpos|exact Hl|].
+    intros s1 Hs1.
+    destruct (s_rt s) as [t lo0] eqn:Ert. cbn [main lo] in *. subst lo0.
+    pose proof (lookup_list_Some _ _ _ Hl) as [Hin Hk].
+    assert (HI1 : Inv R ES (s_rt s1)) by (rewrite Hs1; split; [exact HR|split; [exact Hok|exact Ho']]).
+    assert (Habs1 : rt_abs (s_rt s1) = delete k (rt_abs (RT t (Some o)))).
+    { rewrite Hs1. destruct o as [B l i n]. apply abs_delete_old; assumption. }
+    apply wp_bind. eapply wp_conseq; [apply (Hcl s1)| |].
+    + intros r s2 [Hs2 ->]. destruct res as [e'|].
+      * wp_steps. apply HQ. cbn [set_rt s_rt]. rewrite Hs2, Hs1. cbn [main]. specialize (Hres e' eq_refl).
+        assert (Hkin : ek e' ∈ map ek (orem o)).
+        { rewrite Hres, <- Hk. apply elem_of_list_fmap. exists e. auto. }
+        unfold replace_post. cbn [main lo ocnt oit oB].
+        split.
+        { split; [exact HR|]. split; [exact Hok|]. cbn [lo main].
+          split; [exact Hit|]. split; [cbn [ocnt orem]; rewrite replace_list_length; exact Hc|].
+          split; [cbn [orem]; rewrite replace_list_keys; exact Hnd|]. split; [|exact Hneed].
+          intros x Hx. cbn [orem] in Hx. apply replace_list_elem in Hx.
+          apply elem_of_list_fmap in Hx as (y & Hy & Hyin). rewrite Hy. apply Hdis. exact Hyin. }
+        split; [reflexivity|].
+        split. { intros k' Hk'. unfold rt_find_pure. cbn [main lo orem]. destruct (hel t !! k'); [reflexivity|].
+                 f_equal. apply lookup_list_replace_ne. congruence. }
+        split; [reflexivity|].
+        split. { unfold rt_abs. cbn [main lo orem]. rewrite (list_to_emap_replace e') by exact Hkin. rewrite Hres.
+                 symmetry. apply insert_union_r. exact Hnone. }
+        split. { unfold rt_find_pure. cbn [main lo orem]. rewrite Hnone.
+                 rewrite (lookup_list_nodup k _ e'); [reflexivity| | |exact Hres].
+                 - rewrite replace_list_keys. exact Hnd.
+                 - unfold replace_list. apply elem_of_list_In, List.in_map_iff. exists e. split; [|apply elem_of_list_In; exact Hin].
+                   rewrite Hk, Hres, N.eqb_refl. reflexivity. }
+        repeat split; reflexivity.
+      * wp_steps. apply HQ. rewrite Hs2. unfold replace_post.
+        split; [exact HI1|]. rewrite Hs1 in *. cbn [main lo ocnt]. split; [reflexivity|].
+        split. { intros k' Hk'. unfold rt_find_pure. cbn [main lo orem]. destruct (hel t !! k'); [reflexivity|].
+                 f_equal. apply lookup_list_remove_ne. exact Hk'. }
+        split; [reflexivity|]. split; [exact Habs1|].
+        split; [|intros _; lia].
+        unfold rt_find_pure. cbn [main lo orem]. rewrite Hnone.
+        destruct (lookup_list k (remove_list k (orem o))) as [x|] eqn:El; [|reflexivity].
+        apply lookup_list_Some in El as [Hx Hkx]. apply remove_list_elem in Hx. tauto.
+    + intros p s2 [Hs2 ->]. apply HU; rewrite Hs2; assumption.
+Qed.
 
 (* ---------------------------------------------------------------- shrink_to *)
 
